@@ -1,5 +1,7 @@
 """R-LAY (layouts, packed-counter agreement, constant relations, computed space overheads) and
 R-TAB (the in-byte select table, checked exhaustively against its definition)."""
+import collections
+
 from .core import *
 from .report import Inst
 
@@ -292,3 +294,98 @@ def rule_TAB(FA):
                      props, sample={'wrong_entries': [list(w) for w in wrong[:8]]})]
     return [Inst('R-TAB', 'R-TAB|K_SELECT_IN_BYTE', 'ok', 'src/utils/mod.rs',
                  'all 2048 entries equal the position of the (k+1)-th set bit of the byte (8 if none)', props, sample={'entries_checked': 2048, 'exhaustive': True})]
+
+
+# ---------------------------------------------------------------- R-SPLIT
+
+# Functions whose position arithmetic splits an index into (quotient, remainder) by a power of two; the 30
+# instances were listed from the tree and each confirmed by reading (word index / bit in word, line / position in
+# line, block / offset in block, group / sub-group).  A split whose shift and mask disagree addresses the wrong
+# word or bit.  Functions outside the table are reported as notes only.
+SPLIT_TABLE = {
+    'bitvector::DataLine::AccessBin::get_unchecked': ['C08', 'C06'],
+    'bitvector::DataLine::set_symbol': ['C08'],
+    'bitvector::rs_narrow::RSNarrow::RankBin::rank1_unchecked': ['C06'],
+    'bitvector::rs_narrow::RSNarrow::SelectBin::select0_unchecked': ['C06'],
+    'bitvector::rs_narrow::RSNarrow::SelectBin::select1_unchecked': ['C06'],
+    'bitvector::rs_narrow::RSNarrow::sub_block_rank': ['C06'],
+    'bitvector::rs_wide::RSWide::RankBin::rank1_unchecked': ['C06', 'C03'],
+    'bitvector::rs_wide::RSWide::new': ['C06', 'C03'],
+    'bitvector::rs_wide::RSWide::sub_block_rank': ['C06', 'C03'],
+    'qvector::DataLine::AccessQuad::get_unchecked': ['C13', 'C05'],
+    'qvector::DataLine::RankQuad::rank_unchecked': ['C05'],
+    'qvector::DataLine::set_symbol': ['C13'],
+    'qvector::DataLine::normalize': ['C05'],
+    'qvector::QVector::AccessQuad::get_unchecked': ['C13', 'C05'],
+    'bitvector::BitVector::get_word': ['C08'],
+    'bitvector::BitVectorMut::get_word': ['C08'],
+    'bitvector::BitVectorBitPositionsIter::with_pos': ['C08', 'C07'],
+    'bitvector::BitVectorMut::get_bit_slice': ['C08'],
+    'bitvector::BitVectorMut::get_bits_slice': ['C08'],
+    'bitvector::BitVectorMut::set': ['C08'],
+    'bitvector::BitVectorMut::set_bits': ['C08'],
+    'darray::DArray::select': ['C07'],
+    'qvector::rs_qvector::RSQVector::rank_intra_block': ['C05', 'C01', 'C02'],
+    'qvector::rs_qvector::rs_support_plain::SuperblockPlain::block_predecessor': ['C05'],
+}
+
+
+def rule_SPLIT(FA):
+    out = []
+    seen_fns = set()
+    for f in FA.lib_fns(include_closures=False):
+        k = fn_key(f)
+        for spec in FA.specs(f):
+            F = FA.fn(f, spec)
+            F.dom()
+            uses = collections.defaultdict(set)
+            lines = {}
+            for bi, b in enumerate(F.blocks):
+                if bi not in F.reach:
+                    continue
+                for s in b['s']:
+                    rv = s.get('rv')
+                    if not rv or rv['k'] != 'bin':
+                        continue
+                    op = rv['op'].replace('WithOverflow', '').replace('Unchecked', '')
+                    if op in ('Shr', 'BitAnd', 'Div', 'Rem'):
+                        a = norm(F.operand_term(rv['a']))
+                        c = norm(F.operand_term(rv['b']))
+                        if op == 'BitAnd' and a[0] == 'const':
+                            a, c = c, a
+                        if c[0] == 'const' and a[0] != 'const' and not has_unknown(a) or (c[0] == 'const' and a[0] == 'unknown'):
+                            uses[a].add((op, c[1]))
+                            lines.setdefault(a, s['line'])
+            for a, us in uses.items():
+                Q = set()
+                M = set()
+                for op, c in us:
+                    if op == 'Shr':
+                        Q.add(1 << c)
+                    elif op == 'Div':
+                        Q.add(c)
+                    elif op == 'Rem':
+                        M.add(c)
+                    elif op == 'BitAnd' and c > 0 and (c & (c + 1)) == 0:
+                        M.add(c + 1)
+                if not Q or not M:
+                    continue
+                props = SPLIT_TABLE.get(k)
+                key = 'R-SPLIT|%s%s|%s' % (k, spec_key(spec), show(a)[:50])
+                if Q == M:
+                    if props:
+                        seen_fns.add(k)
+                        out.append(Inst('R-SPLIT', key, 'ok', lines[a], 'index split by %s: quotient and remainder agree' % sorted(Q), props,
+                                        sample={'term': show(a)[:80], 'quotients': sorted(Q), 'remainders': sorted(M)}))
+                else:
+                    st = 'violation' if props else 'note'
+                    if props:
+                        seen_fns.add(k)
+                    out.append(Inst('R-SPLIT', key, st, lines[a],
+                                    '`%s` is divided by %s but reduced modulo %s: quotient and remainder of one position disagree (wrong word / bit / block addressed)' % (
+                                        show(a)[:60], sorted(Q), sorted(M)), props or ['C08'],
+                                    sample={'term': show(a)[:80], 'quotients': sorted(Q), 'remainders': sorted(M)}))
+    for k, props in SPLIT_TABLE.items():
+        if k not in seen_fns:
+            out.append(Inst('R-SPLIT', 'R-SPLIT|%s|anchor' % k, 'note', '', 'confirmed index-split site no longer found (function renamed or its position arithmetic restructured)', props, nontrivial=False))
+    return out
